@@ -71,6 +71,15 @@ def exec_HIST(t):
                     c = 'fxp' if size == 0 else 'arr.fxp'
                     if C.ok_for(c, qs):
                         val = C.build(c, qs)[0]
+                        lo_, hi_ = lims(bool(x.signed), x.n_word)        # (the object's format now: a resize step may have changed it)
+                        if all((q * Fraction(2) ** x.n_frac).denominator != 1 or not (lo_ <= q * Fraction(2) ** x.n_frac <= hi_) for q in qs) and len(out) % 2 and val.n_word <= 60:
+                            # every element of this write is inexact or out of range anyway: the source object may then carry an
+                            # inaccuracy flag of its own past (it held an inexact value before it was given these) - the write is still
+                            # one write, notified once per condition
+                            src_ = Fxp(0.3 if size == 0 else [0.3] * len(qs), val.signed, val.n_word, val.n_frac)
+                            src_(val)
+                            if src_.status['inaccuracy'] and A.codes_of(src_) == A.codes_of(val):
+                                val = src_
                 if parts[0] == 'W':
                     x(val)
                 else:
